@@ -716,7 +716,77 @@ def rule_header_name_class(ctx):
                   ("lacks %s" % "".join(miss)[:20]) if miss else ("accepts the separator(s) %s" % "".join(leak))), ctx.loc(b))
 
 
+def rule_grammar_closed(ctx):
+    """R1: the signature parsers are built from combinators whose language is known (literals, character classes, sequences,
+    alternatives, options, lists, value-building maps).  A combinator that *restricts* what a sub-parser accepted by looking at the
+    value (`verify`, `map_opt`, `cond`, `not`, a hand-written parser closure) makes the accepted language smaller than what Display
+    can print for a valid value - such a node is reported, the skeleton comparison cannot see it"""
+    P = ctx.program
+
+    def opaque(g, acc):
+        if isinstance(g, tuple):
+            if g and g[0] == "unknown":
+                acc.append(str(g[1]))
+            for x in g[1:]:
+                for y in (x if isinstance(x, list) else [x]):
+                    if isinstance(y, (tuple, list)):
+                        opaque(y, acc)
+        elif isinstance(g, list):
+            for y in g:
+                opaque(y, acc)
+        return acc
+    n = 0
+    for b in sorted(P.bodies.values(), key=lambda x: x.path):
+        if b.crate != "huginn_net_db" or "::db_parse::" not in b.path or b.kind not in ("Fn", "AssocFn"):
+            continue
+        try:
+            g = G.parser_grammar(P, b)
+        except AnchorMissing:
+            continue
+        n += 1
+        bad = sorted(set(opaque(g, [])))
+        ctx.check(not bad, "R1", "grammar-closed:%s" % T.short(b.path).split("::")[-1], "only combinators with a known language",
+                  "%s uses %s, which accepts only part of what its sub-parser read (a value-dependent restriction): text that Display prints for a valid value "
+                  "(e.g. a window scale of 15, the `exws` case) is rejected when read back" % (T.short(b.path), ", ".join(bad)), ctx.loc(b))
+    ctx.floor("R1", "signature / database line parsers with a recovered grammar", n, 17)
+
+
+def rule_blank_and_comment_lines(ctx):
+    """R3: blank lines and `;` comments are skipped wherever they stand: the test is made on the *trimmed* line (an indented comment, a
+    line of blanks only, are still a comment / a blank line - p0f.fp-style files are edited by hand)"""
+    P = ctx.program
+    bs = [b for b in P.bodies.values() if b.crate == "huginn_net_db" and b.name == "from_str" and "Database" in (b.impl_self or "")]
+    if len(bs) != 1:
+        ctx.cannot("R3", "loader:blank-comment", "Database::from_str: %d bodies" % len(bs))
+        return
+    b = bs[0]
+    S = T.Slicer(b, P)
+    tests = {}
+    for blk in sorted(b.reachable):
+        be = T.branch_edges(b, S, blk)
+        if be is None:
+            continue
+        for c in Q.canon_cond(P, be[0], True, blk):
+            if c[0] != "bool":
+                continue
+            t = T.strip(c[1])
+            if t[0] != "call":
+                continue
+            last = t[1].rsplit("::", 1)[-1]
+            semi = any(x[0] == "const" and x[1] in (";", 59) for x in T.walk(t))
+            if last == "is_empty" and "str" in t[1]:
+                tests.setdefault("blank", []).append(T.has_call(t, "::trim"))
+            elif last == "starts_with" and semi:
+                tests.setdefault("comment", []).append(T.has_call(t, "::trim"))
+    for k in ("blank", "comment"):
+        ctx.check(bool(tests.get(k)) and all(tests[k]), "R3", "loader:%s-line-trimmed" % k, "%s lines are recognised after trimming" % k,
+                  "the %s-line test of Database::from_str is %s: an indented comment or a line of blanks is taken for content and the load fails "
+                  "(`unexpected line outside the module` / `fail to parse named value`)" % (k, "made on the untrimmed line" if tests.get(k) else "not found"), ctx.loc(b))
+
+
 def run(ctx):
+    rule_blank_and_comment_lines(ctx)
+    rule_grammar_closed(ctx)
     rule_loader_remainders(ctx)
     rule_header_name_class(ctx)
     rule_R1_R2(ctx)
